@@ -225,4 +225,7 @@ def gen_msg(rng, types=None, big_ok=False):
              'reason': rhex(rng, rng.choice([0, 5, 32, 0xfd]) if rng.random() < 0.3 else rng.randint(0, 60))}
     elif t == 'alert':
         f = {'msg': rhex(rng, rng.randint(0, 80)), 'sig': rhex(rng, rng.choice([0, 70, 71, 72]))}
-    return {'type': t, 'f': f}
+    spec = {'type': t, 'f': f}
+    if rng.random() < 0.25:
+        spec['protover'] = rng.choice([60001, 60001, 60002, 70001, 70002, 70012, 70015, 70016, 2 ** 31 - 1])
+    return spec
